@@ -190,12 +190,14 @@ func (ex *Exec) instr(b *ssa.BasicBlock, in ssa.Instruction) {
 		if s := b.Succs[0]; isBackEdge(b, s) {
 			ex.backEdge(b, s)
 		}
+		ex.breakEdges(b)
 	case *ssa.If:
 		for _, s := range b.Succs {
 			if isBackEdge(b, s) {
 				ex.backEdge(b, s)
 			}
 		}
+		ex.breakEdges(b)
 	default:
 		unsup("instruction %T (%s)", in, in)
 	}
